@@ -501,6 +501,12 @@ def run(prog, chk):
     if memrules.free_after_transfer(prog, r17) < 2:
         raise Broken("fewer than 2 store-then-free sites found")
 
+    r18 = chk.rule("R18-source-read-before-destination-cleaned", "a function that copies one value onto an existing one cleans the "
+                   "destination only after it has read the source: otherwise a source that is part of the destination is read "
+                   "after its release (shared with C19 R11)", primary=False, floor=1)
+    if memrules.destination_cleaned_before_source_read(prog, r18) < 1:
+        raise Broken("no function cleaning a destination value found")
+
     r14 = chk.rule("R14-no-release-of-an-unset-pointer", "a local pointer declared without an initialiser and set only by a callee that "
                    "succeeded is not handed to free() / a *_free function on the path through that callee's failure", primary=False, floor=15)
     from .. import uninitfree
